@@ -113,8 +113,9 @@ GEOMS = [
 
 
 def features(key, n):
-    return [data.Feature(term=data.term_from_key(f"feat_{i}_{_h(key, i) % 7}"), value=FLOATS[_h(key, "fv", i) % len(FLOATS)])
-            for i in range(n)]
+    """n features with distinct labels; the first one is exactly 0.0 (a falsy but legal value), the second often -0.0 / tiny"""
+    vals = [0.0] + [FLOATS[_h(key, "fv", i) % len(FLOATS)] for i in range(1, n)]
+    return [data.Feature(term=data.term_from_key(f"feat_{i}_{_h(key, i) % 7}"), value=vals[i]) for i in range(n)]
 
 
 def _strip_optional(ann):
@@ -221,7 +222,8 @@ def build_world(case, audio_root: Path):
             assert (tkey, tval) not in rev, "tag catalogue must be injective"
             rev[(tkey, tval)] = i
         elif k == "recording":
-            base = audio_root if place == "inside" else audio_root.parent / "elsewhere"
+            base = {"inside": audio_root, "outside": audio_root.parent / "elsewhere",
+                    "outside_prefix": Path(str(audio_root) + "_backup")}[place]   # a sibling whose name merely starts like the directory
             p = base.joinpath(*case.get("dir", [])) / (i + "_" + case.get("file", "rec.wav"))
             kw = scalars(data.Recording, i, pat, skip=("path", "tags", "notes", "owners"))
             kw.setdefault("duration", 10.0); kw.setdefault("channels", 1); kw.setdefault("samplerate", 8000)
@@ -504,9 +506,14 @@ def comps(p):
 def run_paths(case, workdir: Path):
     """C18 observation: save under A, inspect stored paths, load under B and under no directory."""
     tmp = Path(tempfile.mkdtemp(prefix="aoefp_", dir=str(workdir)))
+    cwd = os.getcwd()
     try:
-        A = tmp / "audio dir A"
-        B = tmp / "moved" / "audio B"
+        os.chdir(tmp)
+        rel = case.get("akind", "abs") == "rel"
+        A = Path("audio dir A") if rel else tmp / "audio dir A"
+        bk = case.get("bkind", "abs")
+        first = (case.get("dir") or ["audio dir A"])[0]
+        B = {"abs": tmp / "moved" / "audio B", "rel": Path("moved") / "audio B", "rel_first": Path(first)}[bk]
         root, rev, recs = build_world(case, A)
         mode = case["audio"]
         adir = {"none": None, "str": str(A), "path": A}[mode]
@@ -544,6 +551,7 @@ def run_paths(case, workdir: Path):
         out["recs"] = [table[k] for k in sorted(table, key=lambda u: table[u]["id"])]
         return out
     finally:
+        os.chdir(cwd)
         shutil.rmtree(tmp, ignore_errors=True)
 
 
